@@ -316,6 +316,33 @@ def r4(ctx, F):
                         c_ = callee(data) or ''
                         if guarded:
                             continue
+                        if c_ in ('std::ops::Fn::call', 'std::ops::FnMut::call_mut', 'std::ops::FnOnce::call_once') and F.body(callee_resolved(data) or '') is not None:
+                            # `let recorded = |p| trust_base.then(|| base.get(p).copied()).flatten(); .. recorded(p)`: the same
+                            # obligation inside the closure - it can yield a Some only behind the true edge of its captured trust flag
+                            cbody = F.body(callee_resolved(data))
+                            cfl_ = flow_of(cbody)
+                            ctrue = set()
+                            for sb_, st_ in switch_blocks_on(cfl_, lambda os_: bool(os_) and all(o.kind == 'upvar' for o in os_ if o.kind != 'comb')):
+                                caps_ok = True
+                                for o in [o for o in cfl_.origins(st_['on']) if o.kind == 'upvar' and o.key is not None]:
+                                    cap_ok = False
+                                    for blk_ in b.blocks:
+                                        for s2 in blk_['stmts']:
+                                            rv2 = s2['rv']
+                                            if rv2['k'] == 'agg' and rv2.get('ak') == 'closure' and norm(rv2['def']) == cbody.path and int(o.key) < len(rv2['ops']):
+                                                cap_ok = cap_ok or is_slot(fl.origins(rv2['ops'][int(o.key)]), trust)
+                                    caps_ok = caps_ok and cap_ok
+                                if caps_ok:
+                                    tr_, fa_ = bool_edges(sb_, st_)
+                                    ctrue |= tr_
+                            somes_ = [bi_ for bi_ in cfl_.cfg.reachable() for s2 in cbody.blocks[bi_]['stmts'] if s2['rv']['k'] == 'agg' and s2['rv'].get('vname') == 'Some'] + \
+                                     [bi_ for bi_, t2 in cfl_.calls(lambda c2: c2.startswith('std::collections::BTreeMap') and c2.endswith('::get'))]
+                            if ctrue and all(cfl_.cfg.edges_guard(ctrue, bi_) for bi_ in somes_):
+                                has_none[0] = True
+                                continue
+                            good = False
+                            why.append('the closure %s can yield a base entry without testing the trust flag it captured' % cbody.path.split('::')[-1])
+                            continue
                         if c_.split('::')[-1] in ('copied', 'cloned', 'as_ref', 'map', 'filter', 'and_then', 'then', 'then_some'):
                             # Option combinators: the value exists only if their receiver / condition does
                             if c_.split('::')[-1] in ('then', 'then_some') and is_slot(fl.origins(data['args'][0]), trust):
